@@ -206,7 +206,7 @@ def run(ctx):
                 st, bad0 = "S", None
         return out
     seqs = []
-    for n in range(0, 5):
+    for n in range(0, 7 if ctx.tier == "thorough" else 5):
         seqs += ["".join(p) for p in itertools.product("SEo", repeat=n)]
     seqs += ["SoESoE", "SooEoSE", "oSoooEo", "SSoEE"]
     for seq in seqs:
